@@ -118,6 +118,9 @@ def _sf2(args):
     except Exception as e:
         import traceback
         logging.warn(e)
+        # release the stripes that are (or will be) waiting for this one
+        if barrier is not None:
+            barrier.abort()
         raise Exception("".join(traceback.format_exception(*sys.exc_info())))
 
 
